@@ -88,7 +88,11 @@ Definition narrow (st : store) (q : query) : outcome space :=
                             if 0 <? kv.2 then include_subset sp (narrow_by_class st parent kv.1) else sp)
                           (map_to_list m) sp1
              end in
-  let sp3 := match q_refs q with [] => sp2 | rs => include_subset sp2 (Specific rs) end in
+  (* add_ref_matches: only a referenced UTxO can be bound, so the references replace the union *)
+  let sp3 := match q_refs q with
+             | [] => sp2
+             | rs => mk_space (Specific rs) (s_inter (sp_inter sp2) (Specific rs))
+             end in
   if is_constrained sp3 then Ok sp3 else Err "InputQueryTooBroad".
 
 (** SearchSpace::take(Some w): the whole intersection; topped up from the union when the
@@ -222,8 +226,8 @@ Definition spec_candidate (st : store) (q : query) (ign : list utxo_ref) (u : ut
   (match q_addr q with Some a => u_addr u = a | None => True end) /\
   (match q_refs q with [] => True | rs => u_ref u ∈ rs end) /\
   (q_coll q = true -> is_only_naked (u_assets u) = true) /\
-  (** a query without `from` is narrowed by the requested tokens *)
-  (q_addr q = None -> forall p n, 0 < get0 (target_of q) (Defined p n) ->
+  (** a query without `from` and without `ref` is narrowed by the requested tokens *)
+  (q_addr q = None -> q_refs q = [] -> forall p n, 0 < get0 (target_of q) (Defined p n) ->
                        0 < get0 (u_assets u) (Defined p n)).
 
 Definition covers (a target : assets) : Prop := forall k, get0 target k <= get0 a k.
